@@ -1,6 +1,6 @@
 """C05 — thread pool / work thread (DESIGN §4 C05)."""
 from tbxlint.facts import extract, AnalysisBroken
-from tbxlint import locks
+from tbxlint import locks, q
 
 SCOPE = ['eventx/thread_pool.cpp', 'eventx/work_thread.cpp']
 SYNC_HOF = ('tbox::cabinet::Cabinet<', 'std::find', 'std::for_each', 'tbox::CatchThrow')
@@ -44,7 +44,353 @@ def r1_races(ctx, prog):
             raise AnalysisBroken('stop flag %s not seen in both roles (%s)' % (flag, roles_seen))
 
 
+def _worker_ctx(prog, cls):
+    fs = scope_funcs(prog, cls)
+    eng = locks.LockEngine(prog, fs, sync_hof=SYNC_HOF, deferred=DEFERRED)
+    worker = prog.fn1(cls + '::' + CLASSES[cls]['worker'])
+    return eng, worker
+
+
+def _is_take(cls):
+    def pred(f, st):
+        return q.is_call(st, fn='free', cls='tbox::cabinet::Cabinet<') and q.obj_field_is(f, st, 'Data::undo_tasks_cabinet')
+    return pred
+
+
+def _is_backend_invoke(f, st):
+    if st['k'] == 'CXXOperatorCallExpr' and st.get('op') == '()' and q.obj_field_is(f, st, 'Task::backend_task'):
+        return True
+    if q.is_call(st, callee='tbox::CatchThrow') and st.get('args'):
+        fq = f.field_of(st['args'][0])
+        return bool(fq and fq.endswith('Task::backend_task'))
+    return False
+
+
+def r2_handover(ctx, prog):
+    ctx.rule('C05.R2', 'A3: in the worker, removal from the waiting set and insertion into the running set '
+                       'happen in one Data::lock critical section, and the insertion precedes the task body', floor=2)
+    for cls in CLASSES:
+        eng, w = _worker_ctx(prog, cls)
+        mutex = cls + '::Data::lock'
+        takes = q.event_stmts(prog, eng, w, _is_take(cls))
+        marks = [st for st in w.stmts if st and q.is_call(st, fn='insert') and q.obj_field_is(w, st, 'Data::doing_tasks_token')]
+        runs = q.event_stmts(prog, eng, w, _is_backend_invoke)
+        if not takes or not marks or not runs:
+            raise AnalysisBroken('%s::threadProc: take/mark/run events not found (%d/%d/%d)' % (cls, len(takes), len(marks), len(runs)))
+        for t in takes:
+            tp = q.pt(w, t)
+            for m in marks:
+                mp = q.pt(w, m)
+                if not q.reaches(w, tp, mp):
+                    continue
+                ok, bad = q.region_atomic(eng, w, frozenset(), tp, mp, mutex)
+                ctx.ob('C05.R2', '%s|take->mark' % w.name, ok,
+                       'take at %s and mark-running at %s are in one critical section' % (w.loc(t['i']), w.loc(m['i'])) if ok else
+                       'Data::lock is released between taking the task from the waiting set (%s) and marking it running (%s): '
+                       'in that window getTaskStatus() answers not-found and cancel() answers 1 for a task that will run'
+                       % (w.loc(t['i']), w.loc(m['i'])), where=w.loc(m['i']))
+            for r in runs:
+                rp = q.pt(w, r)
+                if not q.reaches(w, tp, rp):
+                    continue
+                ok = not w.cfg.exists_path(tp, rp, avoid=q.pts(w, marks))
+                ctx.ob('C05.R2', '%s|mark-before-run' % w.name, ok,
+                       'every path from the take to the task body passes the mark-running insert' if ok else
+                       'a path from the take (%s) reaches the task body (%s) without doing_tasks_token.insert' % (w.loc(t['i']), w.loc(r['i'])),
+                       where=w.loc(r['i']))
+
+
+def r3_completion(ctx, prog):
+    ctx.rule('C05.R3', 'A4+A6: task bodies are invoked only on the worker role; main_cb is never invoked directly, it only '
+                       'flows into Loop::runInLoop after the body returned and before the task leaves the running set; '
+                       'the Task block is recycled after both', floor=6)
+    for cls in CLASSES:
+        eng, w = _worker_ctx(prog, cls)
+        api = [f for f in prog.methods_of(cls) if f.d.get('access') == 'public']
+        ctxs = eng.contexts({'loop': api, 'worker': [w]}, thread_entries={w.usr: 'worker'})
+        roles_of = {}
+        for f, e, r in ctxs:
+            roles_of.setdefault(f.key, set()).add(r)
+        n_inv = 0
+        for f in scope_funcs(prog, cls):
+            for st in f.stmts:
+                if st and _is_backend_invoke(f, st):
+                    n_inv += 1
+                    rs = roles_of.get(f.key, set())
+                    ctx.ob('C05.R3', '%s|backend_task-invoke' % locks.site_name(prog, f), rs == {'worker'},
+                           'task body invoked in role(s) %s' % sorted(rs), where=f.loc(st['i']))
+                # direct invocation of main_cb anywhere is forbidden
+                if st and st['k'] == 'CXXOperatorCallExpr' and st.get('op') == '()' and q.obj_field_is(f, st, 'Task::main_cb'):
+                    ctx.ob('C05.R3', '%s|main_cb-direct' % locks.site_name(prog, f), False,
+                           'completion callback invoked directly instead of being posted to the loop', where=f.loc(st['i']))
+        if n_inv == 0:
+            raise AnalysisBroken('%s: no invocation of Task::backend_task found' % cls)
+        # posting of main_cb
+        posts = [st for st in w.stmts if st and q.is_call(st, fn='runInLoop', cls='tbox::event::Loop') and st.get('args')
+                 and (w.field_of(st['args'][0]) or '').endswith('Task::main_cb')]
+        if not posts:
+            raise AnalysisBroken('%s::threadProc: posting of main_cb through Loop::runInLoop not found' % cls)
+        runs = [st for st in w.stmts if st and _is_backend_invoke(w, st)]
+        erases = [st for st in w.stmts if st and q.is_call(st, fn='erase') and q.obj_field_is(w, st, 'Data::doing_tasks_token')]
+        frees = [st for st in w.stmts if st and q.is_call(st, fn='free', cls='tbox::ObjectPool<') and q.obj_field_is(w, st, 'Data::task_pool')]
+        if not erases or not frees:
+            raise AnalysisBroken('%s::threadProc: doing_tasks_token.erase / task_pool.free not found' % cls)
+        for p in posts:
+            pp = q.pt(w, p)
+            ok = all(w.cfg.dominates(q.pt(w, r), pp) for r in runs) and bool(runs)
+            ctx.ob('C05.R3', '%s|post-after-body' % w.name, ok,
+                   'runInLoop(main_cb) is dominated by the return of the task body', where=w.loc(p['i']))
+            ok2 = q.must_follow(w, pp, q.pts(w, erases))
+            ctx.ob('C05.R3', '%s|post-before-erase' % w.name, ok2,
+                   'after posting main_cb every path passes doing_tasks_token.erase (task still reported executing until its completion is queued)',
+                   where=w.loc(p['i']))
+        for r in runs:
+            rp = q.pt(w, r)
+            ok = q.must_follow(w, rp, q.pts(w, erases)) and q.must_follow(w, rp, q.pts(w, frees))
+            ctx.ob('C05.R3', '%s|body-then-release' % w.name, ok,
+                   'after the task body every path erases the running mark and recycles the Task block exactly on that path',
+                   where=w.loc(r['i']))
+            for fr in frees:
+                ctx.ob('C05.R3', '%s|free-after-body' % w.name, w.cfg.dominates(rp, q.pt(w, fr)),
+                       'Task block returned to the pool only after the body ran', where=w.loc(fr['i']))
+            # the posted callback belongs to the same task as the body
+            for p in posts:
+                same = w.path(r['args'][0] if r['k'] == 'CallExpr' else r['obj']).rsplit('.', 1)[0] == w.path(p['args'][0]).rsplit('.', 1)[0]
+                ctx.ob('C05.R3', '%s|same-task' % w.name, same, 'body and posted callback belong to the same Task object', where=w.loc(p['i']))
+
+
+def r4_cancel(ctx, prog):
+    ctx.rule('C05.R4', 'A4: cancel() answers "executing" first; its success return is dominated by removing the token from the '
+                       'waiting deque and freeing it from the cabinet under the lock; cleanup() frees every waiting task '
+                       'under the lock before raising the stop flag', floor=8)
+    for cls, info in CLASSES.items():
+        fs = scope_funcs(prog, cls)
+        eng = locks.LockEngine(prog, fs, sync_hof=SYNC_HOF, deferred=DEFERRED)
+        mutex = cls + '::Data::lock'
+        c = prog.fn1(cls + '::cancel')
+        res = eng.analyze(c, frozenset())
+        finds = [st for st in c.stmts if st and q.is_call(st, fn='find') and q.obj_field_is(c, st, 'Data::doing_tasks_token')]
+        takes = [st for st in c.stmts if st and _is_take(cls)(c, st)]
+        erases = [st for st in c.stmts if st and q.is_call(st, fn='erase') and st.get('cls', '').startswith('std::deque<')]
+        pool_frees = [st for st in c.stmts if st and q.is_call(st, fn='free', cls='tbox::ObjectPool<')]
+        if not finds or not takes or not erases:
+            raise AnalysisBroken('%s::cancel: find/free/erase events missing' % cls)
+        rets = {}
+        for r in q.returns(c):
+            rets.setdefault(q.return_const(c, r), []).append(r)
+        if 0 not in rets or 2 not in rets or 1 not in rets:
+            raise AnalysisBroken('%s::cancel: return codes 0/1/2 not all present' % cls)
+        for r in rets[0]:
+            rp = q.pt(c, r)
+            ok = any(c.cfg.dominates(q.pt(c, t), rp) for t in takes) and any(c.cfg.dominates(q.pt(c, e), rp) for e in erases) \
+                and any(c.cfg.dominates(q.pt(c, e), rp) for e in pool_frees)
+            ctx.ob('C05.R4', '%s|return0' % c.name, ok, 'success return dominated by deque erase + cabinet free + pool free', where=c.loc(r['i']))
+            ls = res.get(rp) or frozenset()
+            ctx.ob('C05.R4', '%s|return0-locked' % c.name, mutex in ls, 'success return inside the Data::lock region', where=c.loc(r['i']))
+        for t in takes + erases:
+            tp = q.pt(c, t)
+            ok = any(c.cfg.dominates(q.pt(c, f_), tp) for f_ in finds)
+            ctx.ob('C05.R4', '%s|executing-first' % c.name, ok, 'the running-set test dominates every removal from the waiting set', where=c.loc(t['i']))
+            ctx.ob('C05.R4', '%s|take-locked' % c.name, mutex in (res.get(tp) or ()), 'removal under Data::lock', where=c.loc(t['i']))
+        for r in rets[2]:
+            # return 2 is control dependent on the find != end test
+            cb = c.cfg.controlling_branches(q.pt(c, r))
+            ok = any(any(x['i'] == f_['i'] for x in q.subtree_calls(c, cond)) for cond, k, b in cb for f_ in finds)
+            ctx.ob('C05.R4', '%s|return2' % c.name, ok, '"executing" answer is control dependent on the running-set lookup', where=c.loc(r['i']))
+        # cleanup
+        cl = prog.fn1(cls + '::cleanup')
+        resc = eng.analyze(cl, frozenset())
+        flag_w = q.writes(cl, 'Data::' + info['flag'])
+        ctakes = [st for st in cl.stmts if st and _is_take(cls)(cl, st)]
+        if not flag_w or not ctakes:
+            raise AnalysisBroken('%s::cleanup: stop-flag store or waiting-task free not found' % cls)
+        for t in ctakes:
+            tp = q.pt(cl, t)
+            ctx.ob('C05.R4', '%s|drop-locked' % cl.name, mutex in (resc.get(tp) or ()), 'waiting tasks dropped under Data::lock', where=cl.loc(t['i']))
+        for wst in flag_w:
+            wp = q.pt(cl, wst)
+            # every path to the flag store has passed the drain loop: the condition of the outermost
+            # loop around the cabinet free dominates the store
+            ok = False
+            for t in ctakes:
+                loops = [a for a in cl.ancestors(t['i']) if cl.stmts[a]['k'] in ('ForStmt', 'WhileStmt', 'DoStmt', 'CXXForRangeStmt')]
+                if loops:
+                    outer = cl.stmts[loops[-1]]
+                    cp = cl.cfg.point_of(outer.get('cond')) if outer.get('cond') is not None else None
+                    if cp is not None and cl.cfg.dominates(cp, wp):
+                        ok = True
+            ctx.ob('C05.R4', '%s|drop-before-flag' % cl.name, ok, 'the drain loop over the waiting deque(s) dominates the stop-flag store', where=cl.loc(wst['i']))
+
+
+def r5_join(ctx, prog):
+    ctx.rule('C05.R5', 'A4+A6: cleanup() raises the flag, then notify_all, then joins every worker thread; self-retiring workers '
+                       'hand their std::thread (taken out of threads_cabinet) to the loop for join+delete', floor=5)
+    for cls, info in CLASSES.items():
+        cl = prog.fn1(cls + '::cleanup')
+        flag_w = q.writes(cl, 'Data::' + info['flag'])
+        notif = [st for st in cl.stmts if st and q.is_call(st, fn='notify_all', cls='std::condition_variable')]
+        joins = [st for st in cl.stmts if st and q.is_call(st, fn='join', cls='std::thread')]
+        if not flag_w or not notif or not joins:
+            raise AnalysisBroken('%s::cleanup: flag store / notify_all / join missing (%d/%d/%d)' % (cls, len(flag_w), len(notif), len(joins)))
+        for n in notif:
+            np_ = q.pt(cl, n)
+            ctx.ob('C05.R5', '%s|flag-before-notify' % cl.name, any(cl.cfg.dominates(q.pt(cl, w_), np_) for w_ in flag_w),
+                   'stop-flag store dominates notify_all', where=cl.loc(n['i']))
+        for j in joins:
+            jp = q.pt(cl, j)
+            ctx.ob('C05.R5', '%s|notify-before-join' % cl.name, any(cl.cfg.dominates(q.pt(cl, n), jp) for n in notif),
+                   'notify_all dominates join', where=cl.loc(j['i']))
+        for w_ in flag_w:
+            wp = q.pt(cl, w_)
+            if info['thread_field']:
+                ok = q.must_follow(cl, wp, q.pts(cl, joins))
+                ctx.ob('C05.R5', '%s|join-follows' % cl.name, ok, 'every path after the flag store joins the worker', where=cl.loc(w_['i']))
+            else:
+                # pool: threads are moved to a local vector under the lock (foreach + clear), each element joined and deleted
+                fe = [st for st in cl.stmts if st and q.is_call(st, fn='foreach', cls='tbox::cabinet::Cabinet<std::thread>')]
+                clr = [st for st in cl.stmts if st and q.is_call(st, fn='clear', cls='tbox::cabinet::Cabinet<std::thread>')]
+                dels = [st for st in cl.stmts if st and st['k'] == 'CXXDeleteExpr' and 'thread' in st.get('cdt', '')]
+                loops = [st for st in cl.stmts if st and st['k'] == 'CXXForRangeStmt' and any(x['i'] == j['i'] for j in joins for x in [j] if j['i'] in set(cl.walk(st['body'])))]
+                ok = bool(fe and clr and dels and loops) and all(cl.cfg.dominates(q.pt(cl, x), wp) for x in fe + clr)
+                ctx.ob('C05.R5', '%s|collect-then-join' % cl.name, ok,
+                       'workers are collected (foreach+clear) before the flag is raised and joined+deleted in a loop over that collection',
+                       where=cl.loc(w_['i']))
+                if loops:
+                    rng = cl.path(loops[0]['range'])
+                    lam_pushes = []
+                    for l in prog.lambdas_of.get(cl.key, []):
+                        lam_pushes += [st for st in l.stmts if st and q.is_call(st, fn='push_back') and l.path(st['obj']) == rng]
+                    ctx.ob('C05.R5', '%s|same-collection' % cl.name, bool(lam_pushes),
+                           'the joined collection is the one filled by the foreach callback', where=cl.loc(loops[0]['i']))
+        # self retiring worker (pool only)
+        if not info['thread_field']:
+            w = prog.fn1(cls + '::threadProc')
+            tf = [st for st in w.stmts if st and q.is_call(st, fn='free', cls='tbox::cabinet::Cabinet<std::thread>')]
+            if not tf:
+                raise AnalysisBroken('%s::threadProc: threads_cabinet.free not found' % cls)
+            lams = prog.lambdas_of.get(w.key, [])
+            okl = False
+            for l in lams:
+                js = [st for st in l.stmts if st and q.is_call(st, fn='join', cls='std::thread')]
+                ds = [st for st in l.stmts if st and st['k'] == 'CXXDeleteExpr']
+                if js and ds:
+                    okl = True
+            ctx.ob('C05.R5', '%s|self-retire' % w.name, okl, 'retiring worker posts a join+delete of its own std::thread to the loop', where=w.loc(tf[0]['i']))
+
+
+def r6_priority(ctx, prog):
+    ctx.rule('C05.R6', 'A4: waiting tasks are appended at the back and taken from the front; the pool scans priority levels '
+                       'with an index ascending from 0; execute clamps prio into the table', floor=4)
+    for cls, info in CLASSES.items():
+        pop = prog.fn1(cls + '::popOneTask')
+        fr = [st for st in pop.stmts if st and q.is_call(st, fn='front') and st.get('cls', '').startswith('std::deque<')]
+        pf = [st for st in pop.stmts if st and q.is_call(st, fn='pop_front') and st.get('cls', '').startswith('std::deque<')]
+        bad = [st for st in pop.stmts if st and st['k'] in q.CALL_KINDS and st.get('fn') in ('back', 'pop_back') and st.get('cls', '').startswith('std::deque<')]
+        ctx.ob('C05.R6', '%s|fifo-take' % pop.name, bool(fr and pf and not bad), 'tasks are taken with front()/pop_front() only', where=pop.loc(pop.body))
+        tk = [st for st in pop.stmts if st and _is_take(cls)(pop, st)]
+        ctx.ob('C05.R6', '%s|take-is-front' % pop.name, bool(tk) and all(pop.cfg.dominates(q.pt(pop, f_), q.pt(pop, t)) for f_ in fr for t in tk),
+               'the token freed from the cabinet is the one read by front()', where=pop.loc(pop.body))
+        ex = [f for f in prog.fn(cls + '::execute')]
+        pushes = []
+        for f in ex:
+            for st in f.stmts:
+                if st and st['k'] in q.CALL_KINDS and st.get('cls', '').startswith('std::deque<') and st.get('fn') in ('push_back', 'push_front', 'emplace_back', 'emplace_front', 'insert'):
+                    pushes.append((f, st))
+        if not pushes:
+            raise AnalysisBroken('%s::execute: no enqueue found' % cls)
+        for f, st in pushes:
+            ctx.ob('C05.R6', '%s|fifo-put' % f.name, st['fn'] in ('push_back', 'emplace_back'), 'enqueue at the back (%s)' % st['fn'], where=f.loc(st['i']))
+        if cls.endswith('ThreadPool'):
+            # ascending scan from 0
+            loops = [st for st in pop.stmts if st and st['k'] == 'ForStmt']
+            ok = False
+            for lp in loops:
+                init = pop.s(lp.get('init'))
+                inc = pop.s(pop.strip(lp.get('inc')))
+                if init and init['k'] == 'DeclStmt' and init['decls'] and 'init' in init['decls'][0]:
+                    iv = pop.s(pop.strip_casts(init['decls'][0]['init']))
+                    zero = iv is not None and (iv.get('cv') == 0)
+                    up = inc is not None and inc['k'] == 'UnaryOperator' and inc.get('op') == '++'
+                    idx_used = any(pop.stmts[x]['k'] == 'DeclRefExpr' and pop.stmts[x].get('d') == init['decls'][0]['d'] for x in pop.walk(lp['body']))
+                    ok = ok or (zero and up and idx_used)
+            ctx.ob('C05.R6', '%s|prio-scan' % pop.name, ok, 'priority levels scanned with an index ascending from 0 (level 0 = highest priority)', where=pop.loc(pop.body))
+            # execute: level = prio + MAX with prio clamped
+            f = [f for f in ex if any(st and st['k'] in q.CALL_KINDS and st.get('fn') == 'push_back' for st in f.stmts)][0]
+            prio = next((p for p in f.params if p['n'] == 'prio'), None)
+            if prio is None:
+                raise AnalysisBroken('execute(): parameter prio not found')
+            clamps = [st for st in f.stmts if st and st['k'] == 'BinaryOperator' and st.get('op') == '=' and
+                      f.s(f.strip(st['ch'][0])).get('d') == prio['d'] and 'cv' in f.s(f.strip_casts(st['ch'][1]))]
+            vals = sorted(f.s(f.strip_casts(st['ch'][1]))['cv'] for st in clamps)
+            n_levels = None
+            fld = prog.field(cls + '::Data', 'undo_tasks_token')
+            import re
+            m = re.search(r', (\d+)>$', fld['ct'])
+            if m:
+                n_levels = int(m.group(1))
+            ok = len(vals) == 2 and n_levels is not None and vals[0] == -vals[1] and (vals[1] - vals[0] + 1) == n_levels
+            ctx.ob('C05.R6', '%s|prio-clamp' % f.name, ok, 'prio clamped to [%s] and the level table has %s entries' % (vals, n_levels), where=f.loc(f.body))
+
+
+def r7_bound(ctx, prog):
+    ctx.rule('C05.R7', 'A4: a worker is created in execute() only under threads_cabinet.size() < max_thread_num, with the lock held', floor=1)
+    cls = 'tbox::eventx::ThreadPool'
+    fs = scope_funcs(prog, cls)
+    eng = locks.LockEngine(prog, fs, sync_hof=SYNC_HOF, deferred=DEFERRED)
+    n = 0
+    for f in prog.fn(cls + '::execute'):
+        res = eng.analyze(f, frozenset())
+        for st in q.calls(f, callee=cls + '::createWorker'):
+            n += 1
+            p = q.pt(f, st)
+            cbs = f.cfg.controlling_branches(p)
+            ok = False
+            for cond, k, b in cbs:
+                c = f.s(f.strip_casts(cond))
+                if c and c['k'] == 'BinaryOperator' and c.get('op') in ('<', '>'):
+                    flds = q.subtree_fields(f, cond)
+                    l, r_ = c['ch']
+                    lf, rf = q.subtree_fields(f, l), q.subtree_fields(f, r_)
+                    if c['op'] == '<' and k == 0 and any(x.endswith('threads_cabinet') for x in lf) and any(x.endswith('max_thread_num') for x in rf):
+                        ok = True
+                    if c['op'] == '>' and k == 0 and any(x.endswith('threads_cabinet') for x in rf) and any(x.endswith('max_thread_num') for x in lf):
+                        ok = True
+            ctx.ob('C05.R7', '%s|createWorker' % f.name, ok and (cls + '::Data::lock') in (res.get(p) or ()),
+                   'createWorker() is control dependent on threads_cabinet.size() < max_thread_num and runs under Data::lock', where=f.loc(st['i']))
+    if n == 0:
+        raise AnalysisBroken('no createWorker() call in execute()')
+
+
+def r9_nolock_user(ctx, prog):
+    ctx.rule('C05.R9', 'A2: Data::lock is not held while a task body runs nor while cleanup joins (no lock->USER edge, '
+                       'so cleanup cannot deadlock against a task)', floor=4)
+    for cls, info in CLASSES.items():
+        fs = scope_funcs(prog, cls)
+        eng = locks.LockEngine(prog, fs, sync_hof=SYNC_HOF, deferred=DEFERRED)
+        mutex = cls + '::Data::lock'
+        api = [f for f in prog.methods_of(cls) if f.d.get('access') == 'public']
+        w = prog.fn1(cls + '::threadProc')
+        for f, entry, role in eng.contexts({'loop': api, 'worker': [w]}, thread_entries={w.usr: 'worker'}):
+            res = eng.analyze(f, entry)
+            for st in f.stmts:
+                if not st:
+                    continue
+                if _is_backend_invoke(f, st) or q.is_call(st, fn='join', cls='std::thread'):
+                    ls = res.get(q.pt(f, st))
+                    if ls is None:
+                        continue
+                    ctx.ob('C05.R9', '%s|%s' % (locks.site_name(prog, f), 'join' if st.get('fn') == 'join' else 'task-body'),
+                           mutex not in ls, 'locks held here: {%s}' % ','.join(sorted(x.split('::')[-1] for x in ls)), where=f.loc(st['i']))
+
+
 def run(ctx):
     prog = extract(SCOPE)
     r1_races(ctx, prog)
+    r2_handover(ctx, prog)
+    r3_completion(ctx, prog)
+    r4_cancel(ctx, prog)
+    r5_join(ctx, prog)
+    r6_priority(ctx, prog)
+    r7_bound(ctx, prog)
+    r9_nolock_user(ctx, prog)
     return prog
